@@ -1,6 +1,7 @@
 //! `amem` world (C11): snapshots of the atomically replaceable guest memory.
-//! Maps are identified by a number encoded in their layout (one region at id * 0x1000) and
-//! written into their first byte before publication.
+//! Maps are identified by a number written into their first bytes before publication; the layout
+//! (one region at (id % 2) * 0x1000) only tells odd from even ids, so that a replacement may have
+//! exactly the layout of the map it replaces over different backing memory.
 use crate::rng::Rng;
 use crate::util::*;
 use std::collections::{BTreeMap, HashMap};
@@ -11,8 +12,8 @@ use vm_memory::{Bytes, GuestAddress, GuestAddressSpace, GuestMemory, GuestMemory
 type Map = GuestMemoryMmap<()>;
 
 fn make_map(id: u64) -> Map {
-    let m = Map::from_ranges(&[(GuestAddress(id * 0x1000), 0x1000)]).unwrap();
-    m.write_obj::<u64>(id, GuestAddress(id * 0x1000)).unwrap();
+    let m = Map::from_ranges(&[(GuestAddress((id % 2) * 0x1000), 0x1000)]).unwrap();
+    m.write_obj::<u64>(id, GuestAddress((id % 2) * 0x1000)).unwrap();
     m
 }
 /// the id a holder sees: layout and contents must tell the same story (never a mixture)
@@ -21,12 +22,12 @@ fn id_of(m: &Map) -> Result<u64, String> {
         return Err(format!("regions={}", m.num_regions()));
     }
     let r = m.iter().next().unwrap();
-    let id = r.start_addr().0 / 0x1000;
+    let slot = r.start_addr().0 / 0x1000;
     let tag: u64 = m.read_obj(r.start_addr()).map_err(|e| format!("{:?}", e))?;
-    if tag != id || r.len() != 0x1000 {
-        return Err(format!("layout id {} tag {}", id, tag));
+    if tag % 2 != slot || r.len() != 0x1000 {
+        return Err(format!("layout slot {} tag {}", slot, tag));
     }
-    Ok(id)
+    Ok(tag)
 }
 
 enum Owner {
@@ -44,14 +45,28 @@ impl Owner {
 
 pub struct AmemWorld {
     gm: Option<&'static GuestMemoryAtomic<Map>>,
+    /// handles cloned from `gm` (index 0 is `gm` itself): every operation may go through any of them
+    handles: Vec<&'static GuestMemoryAtomic<Map>>,
     owners: Vec<(u64, Owner)>,
     lock: Option<(u64, GuestMemoryExclusiveGuard<'static, Map>)>,
     weak: BTreeMap<u64, Weak<Map>>,
+    probes: Vec<std::thread::JoinHandle<()>>,
 }
 
 impl AmemWorld {
     pub fn new() -> Self {
-        AmemWorld { gm: None, owners: vec![], lock: None, weak: BTreeMap::new() }
+        AmemWorld { gm: None, handles: vec![], owners: vec![], lock: None, weak: BTreeMap::new(), probes: vec![] }
+    }
+    fn handle(&self, kv: &Kv) -> &'static GuestMemoryAtomic<Map> {
+        self.handles[kv.us("h") % self.handles.len()]
+    }
+    /// blocked probe threads finish as soon as the lock is free
+    fn join_probes(&mut self) {
+        if self.lock.is_none() {
+            for t in self.probes.drain(..) {
+                let _ = t.join();
+            }
+        }
     }
     fn observe(&self, rec: &mut Rec, line: &str, ret: Option<u64>) -> String {
         let gm = self.gm.unwrap();
@@ -76,16 +91,19 @@ impl AmemWorld {
         match kv.op {
             "t.init" => {
                 self.lock = None;
+                self.join_probes();
                 self.owners.clear();
                 self.weak.clear();
                 let id = kv.n("m");
                 let a = Arc::new(make_map(id));
                 self.weak.insert(id, Arc::downgrade(&a));
                 // leaked per case (a few hundred bytes): the exclusive guard borrows it
-                self.gm = Some(Box::leak(Box::new(GuestMemoryAtomic::from(a))));
+                let gm: &'static GuestMemoryAtomic<Map> = Box::leak(Box::new(GuestMemoryAtomic::from(a)));
+                self.gm = Some(gm);
+                self.handles = vec![gm, Box::leak(Box::new(gm.clone())), Box::leak(Box::new(gm.clone()))];
             }
             "t.snapshot" => {
-                let g = self.gm.unwrap().memory();
+                let g = self.handle(&kv).memory();
                 ret = id_of(&g).ok();
                 self.owners.push((kv.n("o"), Owner::Guard(g)));
             }
@@ -106,8 +124,40 @@ impl AmemWorld {
             }
             "t.lock" => {
                 if self.lock.is_none() {
-                    let g = self.gm.unwrap().lock().unwrap();
+                    let g = self.handle(&kv).lock().unwrap();
                     self.lock = Some((kv.n("t"), g));
+                } else if kv.n("probe") == 1 {
+                    // Somebody holds the update lock: a second updater, going through any handle, must wait.
+                    // A helper thread tries; if it gets an exclusive guard while ours is alive, mutual exclusion is broken.
+                    // (When it blocks, as it should, it takes and drops the lock as soon as ours is released.)
+                    let h = self.handle(&kv);
+                    let got = Arc::new(std::sync::atomic::AtomicBool::new(false));
+                    let got2 = got.clone();
+                    let th = std::thread::spawn(move || {
+                        let g = h.lock().unwrap();
+                        got2.store(true, std::sync::atomic::Ordering::SeqCst);
+                        drop(g);
+                    });
+                    std::thread::sleep(std::time::Duration::from_millis(40));
+                    if got.load(std::sync::atomic::Ordering::SeqCst) {
+                        rec.fail("C11", "lock/second-exclusive-guard-while-held", line);
+                    }
+                    rec.note("lock_probes");
+                    self.probes.push(th);
+                }
+            }
+            "t.space" => {
+                // GuestAddressSpace for &M, Rc<M>, Arc<M>: `memory()` hands out the very same map
+                let m = make_map(kv.n("m"));
+                let host = m.get_host_address(GuestAddress((kv.n("m") % 2) * 0x1000)).unwrap() as usize;
+                let same = |x: &Map| x.get_host_address(GuestAddress((kv.n("m") % 2) * 0x1000)).map(|p| p as usize == host).unwrap_or(false) && id_of(x) == Ok(kv.n("m"));
+                let ok = match kv.s("kind") {
+                    "ref" => { let r = &m; let g = GuestAddressSpace::memory(&r); same(&g) }
+                    "rc" => { let r = std::rc::Rc::new(m); let g = r.memory(); same(&g) && std::rc::Rc::ptr_eq(&r, &g) }
+                    _ => { let r = Arc::new(m); let g = r.memory(); same(&g) && Arc::ptr_eq(&r, &g) }
+                };
+                if !ok {
+                    rec.fail("C11", &format!("space/{}/memory-is-another-map", kv.s("kind")), line);
                 }
             }
             "t.replace" => {
@@ -115,6 +165,7 @@ impl AmemWorld {
                     let (_, g) = self.lock.take().unwrap();
                     let id = kv.n("new");
                     g.replace(make_map(id));
+                    self.join_probes();
                     let a = self.gm.unwrap().memory().into_inner();
                     self.weak.insert(id, Arc::downgrade(&a));
                     // C11: once a replacement has completed every snapshot taken afterwards shows the new map
@@ -127,6 +178,7 @@ impl AmemWorld {
                 if matches!(&self.lock, Some((t, _)) if *t == kv.n("t")) {
                     self.lock = None;
                 }
+                self.join_probes();
             }
             _ => return "bad-op".into(),
         }
@@ -142,6 +194,7 @@ pub fn run(rec: &mut Rec, rng: &mut Rng, n_ops: usize, stress_secs: u64) {
         rec.push(line, out, true);
     };
     let mut done = 0;
+    let mut probes_left = 30usize;
     let mut expected: HashMap<u64, u64> = HashMap::new();
     while done < n_ops {
         rec.cases += 1;
@@ -157,24 +210,32 @@ pub fn run(rec: &mut Rec, rng: &mut Rng, n_ops: usize, stress_secs: u64) {
             let r = rng.below(100);
             let line = if r < 25 || owners.is_empty() && r < 50 {
                 next_o += 1;
-                format!("t.snapshot o={}", next_o - 1)
+                format!("t.snapshot o={} h={}", next_o - 1, rng.below(3))
             } else if r < 40 && !owners.is_empty() {
                 next_o += 1;
                 format!("t.clone o={} src={} how={}", next_o - 1, rng.pick(&owners), rng.pick(&["guard", "inner"]))
             } else if r < 58 && !owners.is_empty() {
                 format!("t.drop o={}", rng.pick(&owners))
             } else if r < 72 {
-                if w.lock.is_some() { continue; }
-                format!("t.lock t={}", rng.below(3))
+                if w.lock.is_some() {
+                    // a second updater arrives while the lock is held (a bounded number of timed probes per run)
+                    if probes_left == 0 || !rng.chance(1, 3) { continue; }
+                    probes_left -= 1;
+                    format!("t.lock t={} h={} probe=1", 3 + rng.below(3), rng.below(3))
+                } else {
+                    format!("t.lock t={} h={}", rng.below(3), rng.below(3))
+                }
             } else if r < 92 {
                 match &w.lock {
                     Some((t, _)) => {
-                        if rng.chance(4, 5) { next_map += 1; format!("t.replace t={} new={}", t, next_map - 1) } else { format!("t.unlock t={}", t) }
+                        if rng.chance(4, 5) { let id = next_map; next_map += 1 + rng.below(2); format!("t.replace t={} new={}", t, id) } else { format!("t.unlock t={}", t) }
                     }
                     None => format!("t.replace t={} new={}", rng.below(3), next_map), // disabled: nobody holds the lock
                 }
-            } else {
+            } else if r < 97 {
                 format!("t.unlock t={}", rng.below(3))
+            } else {
+                format!("t.space kind={} m={}", rng.pick(&["ref", "rc", "arc"]), rng.below(6))
             };
             go(&mut w, rec, line);
             // oracle: an owner keeps designating the map it got, for as long as it lives
